@@ -5,7 +5,8 @@
 From Coq Require Import List Arith Bool Lia.
 From Oras Require Import Model.CopyImpl Proofs.CopyImplBase Proofs.CopyImplInv Proofs.CopyImplInv2 Proofs.CopyImplLive
   Proofs.CopyImplDeadlock Proofs.CopyImplFault Proofs.CopyImplTerm Proofs.CopyImplSucc Proofs.CopyImplSucc2
-  Proofs.CopyImplOrder Proofs.CopyImplNoFault Model.CopyImplDst Proofs.CopyImplDst Proofs.CopyImplRefine.
+  Proofs.CopyImplOrder Proofs.CopyImplNoFault Model.CopyImplDst Proofs.CopyImplDst Proofs.CopyImplRefine
+  Generated.GC02 Model.CopyImplSrc Proofs.CopyImplSrc.
 Import ListNotations.
 
 Theorem C04_permits_conserved : forall succ K ext roots s, Reachable succ K ext roots s ->
@@ -254,6 +255,18 @@ Theorem C02_abstract_spec_sound_protocol : forall succ roots a es a', aruns succ
   (forall n, a_dst a n = true -> a_dst a' n = true).
 Proof. exact abstract_spec_sound. Qed.
 Print Assumptions C02_abstract_spec_sound_protocol.
+
+(* TIE TO THE SOURCE.  The program-counter order of the model (Model/CopyImplSrc.v: which Go calls each
+   pc stands for) equals the call sequences that the translator re-reads from copy.go (copyGraph incl.
+   fn), internal/syncutil/limit.go (Go, LimitedRegion.Start / End) and extendedcopy.go on every run:
+   TryCommit, [defer close], Exists, FindSuccessors, region.End BEFORE the nested syncutil.Go, the wait
+   loop's TryCommit, region.Start, then the copy; Go = dispatch (LimitRegion, Start, eg.Go), child
+   (deferred End, fn), Wait, Cause; the outer closure = End, copyGraph, Start. *)
+Theorem C02_source_order_protocol :
+  c02proto_calls_fn = fn_calls /\ c02proto_calls_go = go_calls /\ c02proto_calls_ext = ext_calls /\
+  c02proto_calls_start = start_calls /\ c02proto_calls_end = end_calls.
+Proof. exact source_order. Qed.
+Print Assumptions C02_source_order_protocol.
 
 (* ---- the hypotheses are satisfiable: a concrete DAG (4 -> 3,2 ; 3 -> 1,2 ; 2 -> 0,1), complete runs *)
 Definition ex_succ (n : nat) : list nat :=
